@@ -57,6 +57,9 @@ def cases(rng, tier):
                     'qclass': rng.choice(G.QCLASSES), 'mode': rng.choice(['left', 'right']),
                     'spectrum': rng.choice(['random', 'product', 'flat', 'stair', 'sum']),
                     'tol_kind': tol_kind, 'tol_frac': rng.random(), 'Dmax': rng.choice([2, 3, 4, 6])})
+    for c in out:
+        if c['kind'] == 'compress' and rng.random() < 0.2:
+            c['layout'] = rng.randrange(1, 4)
     left = NREPLAY[tier]
     for c in out:
         if c['kind'] == 'compress' and c['L'] <= 3 and c['Dmax'] <= 4 and left > 0:
@@ -102,6 +105,9 @@ def _state(case):
             psi.A[i] = A
     else:
         psi = G.rand_mps(rs, L, d, qclass=case['qclass'], Dmax=case['Dmax'])
+    if case.get('layout'):
+        # site tensors in other memory layouts (Fortran order, non-contiguous views, negative strides): same values
+        psi.A = [G.relayout(a, case['layout'] + i) for i, a in enumerate(psi.A)]
     return psi
 
 
